@@ -262,7 +262,7 @@ static void ph_from_dom(void *u) {
 static void ph_ball(void *u) {
     size_t lo = g_dom.n * mc_wid / mc_nw, hi = g_dom.n * (mc_wid + 1) / mc_nw;
     for (size_t i = lo; i < hi; i++) {
-        if ((i & 15) == 0 && mc_expired()) return;
+        if (mc_tick(15)) return;
         MC_RUN(OP_BALL, H(g_dom.v[i]), I(g_R));
         if (i % 16 == 0) MC_RUN(OP_MISM, H(g_dom.v[i]));
     }
